@@ -77,6 +77,11 @@ pub enum Layout {
     MultiDotName,
     /// the sibling files are symbolic links to files kept elsewhere
     SymlinkedSiblings,
+    /// the start file is a symbolic link to a file kept elsewhere (its siblings are those of the
+    /// directory the link is in, not of the link's target)
+    SymlinkedInput,
+    /// a longer `<output>.tmp` is lying around (what a killed run leaves behind)
+    StaleTemporary,
 }
 
 #[derive(Clone, Debug, serde::Serialize, serde::Deserialize)]
@@ -115,7 +120,7 @@ fn arb_case(n_inputs: usize) -> impl Strategy<Value = Case> {
             2 => Just(Damage::OutputWriteFails),
         ],
         any::<u16>(),
-        prop_oneof![4 => Just(Layout::Plain), 1 => Just(Layout::MultiDotName), 1 => Just(Layout::SymlinkedSiblings)],
+        prop_oneof![4 => Just(Layout::Plain), 1 => Just(Layout::MultiDotName), 1 => Just(Layout::SymlinkedSiblings), 1 => Just(Layout::SymlinkedInput), 1 => Just(Layout::StaleTemporary)],
     )
         .prop_map(|(input, cwd, spelling, out, pre, target, damage, order, layout)| {
             let mut c = Case { input, cwd, spelling, out, pre, target, damage, order, layout };
@@ -280,6 +285,18 @@ fn populate(indir: &Path, elsewhere: &Path, fs: &FileSet, case: &Case, stray: &s
             std::fs::create_dir_all(indir.join(n)).unwrap();
             continue;
         }
+        if case.layout == Layout::SymlinkedInput && *n == fs.start {
+            // the target directory holds a decoy sibling for every real one
+            let store = elsewhere.join("linked");
+            std::fs::create_dir_all(&store).unwrap();
+            std::fs::write(store.join(n), c).unwrap();
+            for (other, _) in fs.files.iter().filter(|f| f.0 != fs.start && f.0.ends_with(".xsd")).take(1) {
+                std::fs::write(store.join(other), "<xs:schema xmlns:xs=\"http://www.w3.org/2001/XMLSchema\" targetNamespace=\"urn:decoy\"><xs:complexType name=\"Decoy\"><xs:sequence/></xs:complexType></xs:schema>").unwrap();
+            }
+            let _ = std::fs::remove_file(indir.join(n));
+            std::os::unix::fs::symlink(store.join(n), indir.join(n)).unwrap();
+            continue;
+        }
         if case.layout == Layout::SymlinkedSiblings && *n != fs.start {
             let store = elsewhere.join("store");
             std::fs::create_dir_all(&store).unwrap();
@@ -391,6 +408,15 @@ pub fn evaluate(case: &Case, base: &FileSet, root: &Path) -> Verdict {
         std::fs::write(&out_abs, o).unwrap();
     }
 
+    if case.layout == Layout::StaleTemporary {
+        let mut t = out_abs.clone().into_os_string();
+        t.push(".tmp");
+        if let Some(p) = out_abs.parent() {
+            if p.is_dir() {
+                let _ = std::fs::write(std::path::PathBuf::from(t), format!("// left behind by a killed run\n{}", "// stale temporary line\n".repeat(new_len / 20 + 600)));
+            }
+        }
+    }
     let mut args = vec!["--input".to_string(), input_arg.clone()];
     if let Some(o) = &out_arg {
         args.push("--output".into());
@@ -489,7 +515,7 @@ pub fn run(tier: Tier) -> i32 {
         "C17",
         tier,
         "exploration",
-        "proptest-generated CLI scenarios: input set (repository and generated schema/WSDL sets, optionally damaged: missing input, directory as input, non-UTF-8 sibling, malformed/empty start file, unresolved import, encoded binding, malformed imported file, a document that reads but fails while being written, an output file whose write fails half way under a file-size limit) x working directory (input dir / parent / unrelated) x path spelling (absolute, relative, ./, bare file name, dir/../dir) x output (default <input>.rs, --output absolute / relative) x pre-existing output (absent / shorter / longer than the new text) x output target (creatable, inside a missing directory, an existing directory) x file creation order in the directory x layout (plain, a second dot in the start file's name, siblings as symbolic links). With a non-UTF-8 sibling the run is repeated with that sibling under other names and creation positions and must end the same way. Oracle: exit 0 => output bytes equal the library's bytes for the same contents and nothing stale follows; exit != 0 => the pre-existing output is byte-identical (or still absent); where the library accepts the contents and the target is creatable the exit status must be 0 for every spelling. Non-trivial: non-absolute spelling, or pre-existing output, or a failing case; distinct by the whole scenario.",
+        "proptest-generated CLI scenarios: input set (repository and generated schema/WSDL sets, optionally damaged: missing input, directory as input, non-UTF-8 sibling, malformed/empty start file, unresolved import, encoded binding, malformed imported file, a document that reads but fails while being written, an output file whose write fails half way under a file-size limit) x working directory (input dir / parent / unrelated) x path spelling (absolute, relative, ./, bare file name, dir/../dir) x output (default <input>.rs, --output absolute / relative) x pre-existing output (absent / shorter / longer than the new text) x output target (creatable, inside a missing directory, an existing directory) x file creation order in the directory x layout (plain, a second dot in the start file's name, siblings as symbolic links, the start file as a symbolic link into a directory with decoy siblings, a longer stale <output>.tmp lying around). With a non-UTF-8 sibling the run is repeated with that sibling under other names and creation positions and must end the same way. Oracle: exit 0 => output bytes equal the library's bytes for the same contents and nothing stale follows; exit != 0 => the pre-existing output is byte-identical (or still absent); where the library accepts the contents and the target is creatable the exit status must be 0 for every spelling. Non-trivial: non-absolute spelling, or pre-existing output, or a failing case; distinct by the whole scenario.",
     );
     ev.assume("the checks run as root, so unreadable/unwritable permission bits cannot be used; an uncreatable target and a non-UTF-8 sibling stand in for them");
     ev.assume("library bytes are computed in-process from the same contents (requires C12 determinism, which holds on this tree)");
